@@ -440,7 +440,7 @@ def rules(repo=None):
 
 EXPLANATION = (
     "R1: float-taint analysis of the writer's grouping key (lambda, nested or module function, method), of every local in the "
-    "slice of the opened path, and of the reader's bounds (true division, longdouble samples_per_second, float literals are "
+    "slice of the opened path, of the reader's bounds and of every file argument handed to the per-file reader (true division, longdouble samples_per_second, float literals are "
     "sources; taint survives int()/np.uint64()). R2: straight-line symbolic evaluation of writer and reader followed by a "
     "canonical form for nested floor divisions of integer products: the timestamp printed into the file name for sample k and "
     "the sub-directory timestamp must be the same function of (k, d, n, cadences) on both sides. R3: regular-language equality "
